@@ -131,6 +131,7 @@ fn patch_file(file_path: &Path, patch_content: &str, write: bool) -> Result<()> 
 }
 
 /// Undo a previously applied renaming
+#[allow(clippy::too_many_lines)]
 pub fn undo_renaming(id: &str, renamify_dir: &Path) -> Result<()> {
     let mut history = History::load(renamify_dir)?;
 
